@@ -402,5 +402,18 @@ class CFG:
                     stack.append((nx, path + (nx,)))
         return None
 
+    def polarity(self, test_node: Node, targets) -> bool | None:
+        """True when only the true-branch of the test leads to the target nodes, False when only the false-branch."""
+        targets = set(targets)
+        reach = {}
+        for lab in ("t", "f"):
+            starts = [s_ for s_, l_ in test_node.succ if l_ == lab]
+            reach[lab] = any(s_ in targets for s_ in starts) or self.reach_avoiding(starts, lambda x: x in targets, lambda x: x is test_node, from_succ=False) is not None
+        if reach["t"] and not reach["f"]:
+            return True
+        if reach["f"] and not reach["t"]:
+            return False
+        return None
+
     def path_text(self, path: list[Node]) -> list[str]:
         return [f"{n.line}:{n.text()}" if n.ast is not None else n.kind for n in path]
